@@ -32,3 +32,15 @@ def Recipe.eval (r : Recipe) (s : List Char) (mt : List Nat) : List Char :=
   r.flatMap (·.eval s mt)
 
 end Cvise
+
+namespace Cvise
+
+/-- pieces of a regex replacement function `replace_fn(m)` -/
+inductive RPiece
+  | grp (id : Nat)                       -- m.group(id)
+  | const (s : String)
+  | hexToDec (id : Nat)                  -- str(int(m.group(id), 16))
+  | firstField (id : Nat) (sep : Nat)    -- m.group(id).split(chr(sep))[0]
+deriving Repr, DecidableEq
+
+end Cvise
